@@ -2,12 +2,12 @@
 package props
 
 import (
-	"sync/atomic"
 	"encoding/json"
 	"fmt"
 	"regexp"
 	"sort"
 	"strings"
+	"sync/atomic"
 
 	"github.com/trustbloc/sidetree-core-go/pkg/api/operation"
 	"github.com/trustbloc/sidetree-core-go/pkg/api/protocol"
